@@ -235,23 +235,26 @@ example {R : Type} : treeX.ok ∧ treeX.pathOk (rdX (R := R)) ∧ treeX.caseOk (
       intro v hv; simp [itemsVars, operandVars] at hv; subst hv
       exact pathX
 
-/-- stage 6 of `RenderParsePrint`, PARTIAL: one `<loop set="S" value="V">body</loop>` between two
-segment runs (stage 3 segments, at top level).  The exact class:
-* `S` (the set path): free of `{ < } " >`, the documented path shape, 1..235 units (the value name's
-  offset must fit the tag's 8-bit field: known finding name-of-256-units-or-more);
+/-- stage 6 of `RenderParsePrint`, PARTIAL: one `<loop set="S" value="V">body</loop>` or
+`<loop value="V">body</loop>` (`S = []`: the loop runs over the root) between two segment runs
+(stage 3 segments, at top level).  The exact class:
+* `S` (the set path): free of `{ < } " >`, when present of the documented path shape, at most 235
+  units (the value name's offset must fit the tag's 8-bit field: known finding
+  name-of-256-units-or-more);
 * `V` (the value name): free of `{ < } " >`, at most 255 units;
 * `body`: text, `{var:path}` and `{raw:path}` segments (`okB`: no `{math:}`), paths of 1..255 units
   free of `{ < }` with the documented shape, and a path that STARTS with `V` is `V` followed by
   `[key]…` (`BodyPathOk`; the code compares only the first `|V|` units of a name with the value
   name, the document the whole name);
 * the content is below the 32-bit limit.
-The value is ARBITRARY: `S` may resolve to an array (items without keys), an object (items with
-their keys; an unresolved `{var:V…}` prints the escaped key), anything else or nothing (the loop
-prints nothing); undefined members are skipped.  Proof: exact `next` at `<loop` / `</loop>`, exact
-`parseLoopAttributes` on the printed attributes (`pla_print`), `stepVar` under the loop chain
+The value is ARBITRARY: the collection (`collOf`: the value of `S`, or the root) may be an array
+(items without keys), an object (items with their keys; an unresolved `{var:V…}` prints the escaped
+key), anything else or nothing (the loop prints nothing); undefined members are skipped.  Proof
+(Proofs/TmplLoop.lean): exact `next` at `<loop` / `</loop>`, exact `parseLoopAttributes` on the
+printed attributes (`pla_print`, `pla_print0`), `stepLoop_gen`, `stepVar` under the loop chain
 (`checkLoopVariable_one`), `loopIter` against `loopArr` / `loopObj` (`loopIter_ents`).
-Not covered (see notes/design-tmpl.md): `<loop value=…>` without `set` (the root), `{math:}` /
-blocks / loops inside the body, loops inside blocks, `sort=` / `group=`. -/
+Not covered (see notes/design-tmpl.md): `{math:}` / blocks / loops inside the body, loops inside
+blocks, `sort=` / `group=`. -/
 theorem render_parse_print_loop_partial {R : Type} [RealLike R] (cx : RCtx R) (sx : SpecCtx R)
     (cfg : ScanCfg R) (segs0 : List Seg) (S V : List Nat) (body segs1 : List Seg)
     (hg : cx.guardIndexRead = true) (same : SameCtx cx sx) (hrn : cfg.readNum = cx.readNum)
@@ -259,27 +262,19 @@ theorem render_parse_print_loop_partial {R : Type} [RealLike R] (cx : RCtx R) (s
     (h0 : ∀ s ∈ segs0, s.ok) (hp0 : ∀ s ∈ segs0, s.pathOk cfg.readNum)
     (h1 : ∀ s ∈ segs1, s.ok) (hp1 : ∀ s ∈ segs1, s.pathOk cfg.readNum)
     (hb : ∀ s ∈ body, s.okB) (hpb : ∀ s ∈ body, s.pathB V)
-    (hS : plainL S) (hS34 : ∀ x ∈ S, x ≠ 34) (hSgt : ∀ x ∈ S, x ≠ 62) (hSp : PathOk S) (hS236 : S.length < 236)
+    (hS : plainL S) (hS34 : ∀ x ∈ S, x ≠ 34) (hSgt : ∀ x ∈ S, x ≠ 62) (hSp : S ≠ [] → PathOk S)
+    (hS236 : S.length < 236)
     (hV : plainL V) (hV34 : ∀ x ∈ V, x ≠ 34) (hVgt : ∀ x ∈ V, x ≠ 62) (hV256 : V.length < 256)
     (hn : cx.content.length + 16 < 4294967296) (fuel fuel' : Nat) :
     (parse cfg cx.content).bind (fun tags => renderTop cx tags
-        ((loopEnts cx S).length + nTags body + nTags segs1 + 5 + fuel + nTags segs0)) =
+        ((entsO (collOf cx S)).length + nTags body + nTags segs1 + 5 + fuel + nTags segs0)) =
       .ok (expand sx (loopTpl segs0 S V body segs1)
-        (segs0.length + segs1.length + (loopEnts cx S).length + body.length + 4 + fuel')) := by
-  have hSne : S ≠ [] := by
-    obtain ⟨name, keys, rfl, hne, _, _⟩ := hSp
-    intro h; exact hne (List.append_eq_nil_iff.mp h).1
-  rw [printLoopT_eq segs0 S V body segs1 hSne] at hc
-  have hn' := hn
-  rw [hc] at hn'
-  have hp := Qentem.Tmpl.parse_loopT cfg segs0 S V body segs1 h0 h1 hb hS hS34 hV hV34 hSgt hVgt hS236 hV256 hn'
-  rw [← hc] at hp
-  rw [hp]
-  simp only [Except.bind]
-  rw [renderTop_loopT cx cfg hg hrn segs0 S V body segs1 hc h0 hp0 h1 hp1 hSp hb hpb fuel, expand, same.eq,
-    expand_loopT cx segs0 S V body segs1 hSne fuel']
+        (segs0.length + segs1.length + (entsO (collOf cx S)).length + body.length + 4 + fuel')) := by
+  rw [expand, same.eq]
+  exact loop_partial cx cfg segs0 S V body segs1 hg hrn hc h0 hp0 h1 hp1 hb hpb hS hS34 hSgt hSp hS236 hV hV34 hVgt
+    hV256 hn fuel fuel'
 
-/-- non-vacuity: `<loop set="a" value="v">{var:v}</loop>` -/
+/-- non-vacuity: `<loop set="a" value="v">{var:v}</loop>` (and, with `S = []`, `<loop value="v">{var:v}</loop>`) -/
 example {R : Type} (rn : List Nat → Option (Num R)) :
     (∀ s ∈ [Seg.var [118]], s.okB) ∧ (∀ s ∈ [Seg.var [118]], s.pathB [118]) ∧ PathOk [97] ∧ plainL [97] ∧
       plainL [118] := by
